@@ -43,9 +43,11 @@ def f32_to_f64_bits(b32):
 # value kinds
 
 class Kind:
-    def __init__(self, name, dom, expr, method=None, canon=None, sig=False, disp=None, dbg=None, pre=None, sh_ok=True, inner=None):
+    def __init__(self, name, dom, expr, method=None, canon=None, sig=False, disp=None, dbg=None, pre=None, sh_ok=True, inner=None,
+                 dbg_only=False):
         self.name, self.dom, self.expr, self.method, self.canon = name, dom, expr, method, canon
         self.sig, self.disp, self.dbg, self.pre, self.sh_ok = sig, disp, dbg, pre, sh_ok
+        self.dbg_only = dbg_only       # has Debug but no Display: `%` is not applicable
         self.inner = inner or name     # Coq vty description
 
 
@@ -107,8 +109,11 @@ _add(Kind("empty", None, "tracing::field::Empty", None, None))
 # not a Value: only through sigils
 _add(Kind("dd", "u32", "DD(d.u32({j}))", None, None, sig=True, disp=lambda v, *_: "D<%d>" % v, dbg=lambda v, *_: "G<%d>" % v))
 
+# Option<T> is not a `Value` in this tracing-core and has no Display: only `?opt`
+_add(Kind("opt_u8", "u8", "d.opt_u8({j})", None, None, sig=True, dbg=lambda v, *_: ("Some(%d)" % v) if v % 2 == 0 else "None", dbg_only=True))
+
 PLAIN_KINDS = [k for k in KINDS if KINDS[k].method is not None or k == "empty"]
-SIGIL_KINDS = ["u8", "i64", "u128", "i128", "usize", "bool", "str", "string", "f64", "f32", "dd", "nz_u8", "nz_i32"]
+SIGIL_KINDS = ["u8", "i64", "u128", "i128", "usize", "bool", "str", "string", "f64", "f32", "dd", "nz_u8", "nz_i32", "opt_u8"]
 FMT_KINDS = ["u8", "i32", "i64", "u128", "bool", "str", "dd", "isize"]
 
 
@@ -174,6 +179,8 @@ def mk_item(t, form, nk, sigil, vk, uniq):
     """form: 'kv' | 'sh'.  nk (name kind): path | dotted | raw | lit | const   (sh: path | dotted | raw).
     Returns the item description; names are made unique within the template with `uniq`."""
     k = KINDS[vk]
+    if sigil == "%" and k.dbg_only:
+        sigil = "?"
     it = {"form": form, "nk": nk, "sigil": sigil, "vk": vk, "slot": None, "tick": None, "var": None}
     if k.dom is not None:
         it["slot"] = t.slot()
@@ -220,7 +227,9 @@ def mk_fmt(t, rng, nargs, ncaps=0, style=0):
     for a in range(nargs):
         vk = FMT_KINDS[(style + a) % len(FMT_KINDS)]
         spec = "{}" if (a + style) % 3 else "{:?}"
-        args.append({"vk": vk, "slot": t.slot(), "tick": t.tick(), "var": t.var(), "spec": spec, "cap": False})
+        # the last explicit argument is sometimes a *named* one: "{nm3:?}", nm3 = expr
+        args.append({"vk": vk, "slot": t.slot(), "tick": t.tick(), "var": t.var(), "spec": spec, "cap": False,
+                     "named": a == nargs - 1 and style % 3 == 1})
         pieces.append(("arg", len(args) - 1))
         pieces.append(("lit", lits[(style + a + 1) % len(lits)]))
     for c in range(ncaps):
@@ -265,6 +274,8 @@ def fmt_src(t, f, pre):
             a = f["args"][p[1]]
             if a["cap"]:
                 s.append("{cap%d%s}" % (a["var"], a["spec"]))
+            elif a.get("named"):
+                s.append("{nm%d%s}" % (a["var"], a["spec"][1:-1]))
             else:
                 s.append(a["spec"])
     out = [rust_str("".join(s))]
@@ -272,6 +283,8 @@ def fmt_src(t, f, pre):
         e = value_expr(t, a, pre)
         if a["cap"]:
             pre.append("let cap%d = %s;" % (a["var"], e))
+        elif a.get("named"):
+            out.append("nm%d = t(%d, %s)" % (a["var"], a["tick"], e))
         else:
             out.append("t(%d, %s)" % (a["tick"], e))
     return ", ".join(out)
@@ -448,6 +461,9 @@ def build():
                     t.post.append({"op": "record", "name": "undeclared_%d" % t.id, "vk": "u8", "slot": t.slot(), "tick": None, "var": t.var()})
                     t.post.append({"op": "record_field", "name": n2, "vk": "str", "slot": t.slot(), "tick": None, "var": t.var()})
                     t.post.append({"op": "record_foreign", "vk": "u8", "slot": t.slot(), "tick": None, "var": t.var()})
+                    # near misses of a declared name are undeclared too: other case, trailing space, proper prefix
+                    for vn, vk in ((n0.upper(), "u8"), (n0 + " ", "bool"), (n0[:-1], "i64"), (n2.capitalize(), "str")):
+                        t.post.append({"op": "record", "name": vn, "vk": vk, "slot": t.slot(), "tick": None, "var": t.var()})
                 elif v == 3:
                     t.items.append(mk_item(t, "sh", ["path", "dotted", "raw"][mask % 3], ["?", "%"][mi % 2], SIGIL_KINDS[(t.id * 3) % len(SIGIL_KINDS)], 0))
                     t.items.append(mk_item(t, "kv", "raw", "%", "dd", 1))
@@ -571,6 +587,9 @@ def build():
                 ra.append(it)
             t.post.append({"op": "record_all", "items": ra})
         t.post.append({"op": "record", "name": "nope %d" % q, "vk": "u8", "slot": t.slot(), "tick": None, "var": t.var()})
+        if q % 3 == 0:
+            t.post.append({"op": "record", "name": names[0].upper(), "vk": "i16", "slot": t.slot(), "tick": None, "var": t.var()})
+            t.post.append({"op": "record", "name": names[2] + ".", "vk": "str", "slot": t.slot(), "tick": None, "var": t.var()})
     return tpls
 
 
